@@ -111,6 +111,12 @@ CHECKS.update({
    text="Pairs (existing tree t1, JSON document rendered by the independent refjson from the model of t2, with bare and module-prefixed names, optionally plus one unknown member at each object position) over all ordered pairs of k<=1 states on three packages and k<=2 x k<=2 over ordered-list atoms (thorough: more), with and without IgnoreExtraFields: the document is unmarshalled into a fresh copy of t1 and the observed Model compared with the reference merge (unmentioned values unchanged, mentioned leaves overwritten, mentioned leaf-lists replaced wholesale, list entries merged by key, no duplicate keys); an unknown member must cause an error without the option and be skipped with it while everything else is applied identically.",
    technique="explicit-state enumeration of (tree, document) pairs on the real Unmarshal against a reference merge on the model", note=TREE_NOTE),
 })
+
+CHECKS.update({
+ "C29": dict(engine="treemc", cat="model_checking", sec="5/C29",
+   text="The whole accessor tree of 17 generated path-struct packages (OpenConfig-style corpus voc plus a path corpus vps with string/uint32/int64/uint64/enum/identityref/union/boolean/decimal64 keys, 2- and 3-key lists, nested and ordered lists, config/state twins, list-only containers, choice/case, an augment, name collisions; variants: simple/wrapper unions, prefer_operational_state, ignore_shadow_schema_paths, path_struct_suffix, generate_wildcard_paths=false, simplify_wildcard_paths, list_builder_key_threshold, exclude_state, split_pathstructs_by_module) is explored breadth-first by reflection from the device root: every accessor with every tuple of the per-type key domains and every wildcard / partial-wildcard / builder variant (183,634 path nodes quick; 669,591 thorough). ygot.ResolvePath must succeed; element names must equal the data-tree path obtained independently from the GoStruct field tags and name a node of the right kind in the harness's own goyang compile; supplied keys must denote the supplied values; wildcarded keys must be '*'; the method set of each path struct is exactly the expected API; every schema node kept by compression is reached by exactly one non-wildcard chain.",
+   technique="explicit-state BFS over the generated accessor tree (states = path nodes, transitions = accessor calls) with a path-resolution oracle against struct tags and goyang", note="trusted base: reflection driver, goyang, core.KeyMatches; schemas and key values outside the corpus are not covered"),
+})
 ALL = [json.loads(l)["id"] for l in open(os.path.join(V, "properties.jsonl"))]
 NA = {
 }
